@@ -15,7 +15,12 @@ class LoopStepLimit(Exception):
 
 
 class VLoop(asyncio.AbstractEventLoop):
-    def __init__(self, t0=0.0, tie_hook=None):
+    def __init__(self, t0=0.0, tie_hook=None, batch_hook=None):
+        # batch_hook(first, other) -> bool: may ``other`` (the next timer, due later than ``first``) become
+        # ready in the *same* loop iteration as ``first``?  A real loop runs every timer that is due when it
+        # wakes up (clock resolution, a blocked loop) back to back, before any callback those timers schedule
+        # with call_soon - the hook lets a harness explore that (it may decide on symbolic times / Booleans).
+        self.batch_hook = batch_hook
         self._now = t0
         self._ready: collections.deque = collections.deque()
         self._timers: list = []
@@ -145,6 +150,16 @@ class VLoop(asyncio.AbstractEventLoop):
                 if t._when > self._now:  # may fork
                     self._now = t._when
                 self._ready.append(t)
+                while self.batch_hook is not None:
+                    t2 = self._pop_earliest()
+                    if t2 is None:
+                        break
+                    if (horizon is not None and t2._when > horizon) or not self.batch_hook(t, t2):
+                        self._timers.append(t2)
+                        break
+                    if t2._when > self._now:
+                        self._now = t2._when
+                    self._ready.append(t2)
         finally:
             events._set_running_loop(None)
 
